@@ -471,6 +471,9 @@ func (c *compiler) compileAlt(l, r *Query) error {
 }
 
 func (c *compiler) compileQueryUpdate(l, r *Query, op Operator) error {
+	if op == OpAssign && verifOptOff(verifOptConstSetpath) {
+		return c.compileFunc(&Func{Name: op.getFunc(), Args: []*Query{l, r}})
+	}
 	switch op {
 	case OpAssign:
 		// optimize assignment operator with constant indexing and slicing
@@ -692,6 +695,9 @@ func (c *compiler) compileIf(e *If) error {
 	if e.Else != nil {
 		defer c.newScopeDepth()()
 		defer func() {
+			if verifOptOff(verifOptIfConst) {
+				return
+			}
 			// optimize constant results
 			//    opdup, ..., opjumpifnot, opconst, opjump, opconst
 			// => opnop, ..., opjumpifnot, oppush,  opjump, oppush
@@ -880,6 +886,9 @@ func (c *compiler) compileTerm(e *Term) error {
 }
 
 func (c *compiler) compileIndex(e *Term, x *Index) error {
+	if verifOptOff(verifOptConstIndex) {
+		return c.compileIndexGeneral(e, x)
+	}
 	if k := x.toIndexKey(); k != nil {
 		if err := c.compileTerm(e); err != nil {
 			return err
@@ -1331,6 +1340,9 @@ func (c *compiler) compileObject(e *Object) error {
 		}
 	}
 	c.append(&code{op: opobject, v: len(e.KeyVals)})
+	if verifOptOff(verifOptConstObject) {
+		return nil
+	}
 	// optimize constant objects
 	l := len(e.KeyVals)
 	if pc+l*3+1 != len(c.codes) {
@@ -1431,6 +1443,9 @@ func (c *compiler) compileArray(e *Array) error {
 	if e.Query.Op == OpPipe {
 		return nil
 	}
+	if verifOptOff(verifOptConstArray) {
+		return nil
+	}
 	// optimize constant arrays
 	if (len(c.codes)-pc)%3 != 0 {
 		return nil
@@ -1454,6 +1469,9 @@ func (c *compiler) compileArray(e *Array) error {
 
 func (c *compiler) compileUnary(e *Unary) error {
 	c.appendCodeInfo(e)
+	if verifOptOff(verifOptUnaryConst) {
+		return c.compileUnaryGeneral(e)
+	}
 	if v := e.toNumber(); v != nil {
 		c.append(&code{op: opconst, v: v})
 		return nil
@@ -1612,6 +1630,9 @@ func (c *compiler) compileCallInternal(
 			if n == 3 && c.codes[pc].v.([3]int)[1] > 0 {
 				n = 0 // the argument owns variables, so it needs its scope
 			}
+			if n == 2 && verifOptOff(verifOptIdentityArg) || n == 3 && verifOptOff(verifOptOneInstrArg) {
+				n = 0
+			}
 			switch n {
 			case 2: // optimize identity argument (opscope, opret)
 				j := len(c.codes) - 3
@@ -1674,6 +1695,9 @@ func (c *compiler) lazy(f func() *code) func() {
 }
 
 func (c *compiler) optimizeTailRec() {
+	if verifOptOff(verifOptTailRec) {
+		return
+	}
 	var pcs []int
 	scopes := map[int]bool{}
 L:
@@ -1732,6 +1756,9 @@ func (c *compiler) optimizeCodeOps() {
 			if targets[i+1] {
 				break
 			}
+			if verifOptOff(verifOptPeephole) {
+				break
+			}
 			switch next.op {
 			case oppop:
 				code.op = opnop
@@ -1741,6 +1768,9 @@ func (c *compiler) optimizeCodeOps() {
 				next.op = oppush
 			}
 		case opjump, opjumpifnot:
+			if verifOptOff(verifOptJumpThread) {
+				break
+			}
 			if j := code.v.(int); j-1 == i {
 				code.op = opnop
 			} else if next = c.codes[j]; next.op == opjump {
